@@ -47,6 +47,9 @@ claimed = {
  "C15": dict(
    text="Lean 4 proof for all count vectors and all p: upward closed, at least ceil(n*p/100) ranked items flagged, p=100 flags all, threshold is an observed value, antitone in p, clamped index always in range (C15_upward, C15_top, C15_all, C15_member, C15_antitone, C15_total) for both strategies, from sortedness/permutation of mergeSort and a counting lemma. The float64 index is an input constrained by an integer envelope (IdxOk); the envelope is validated exhaustively by execution (65 536 x 101) on every run: this part is execution, not proof, and is named in the trusted base. Tie: differential of the cut-off functions and flags.",
    technique="Lean 4 proof over sorted lists with an integer envelope for the float index (envelope validated exhaustively by execution) + differential"),
+ "C19": dict(
+   text="Lean 4 proof: the ACME recogniser accepts a line with (value, label) IF AND ONLY IF the line is a well-formed definition of that label with that value (C19_acme_exact, both directions, all strings); accepted 64tass lines have the documented shape with a hex field or a decimal field not above 65535 (C19_tass_sound); accepted values fit in 16 bits; file level: success iff no over-long line and every line accepted, definitions in file order, labels per address in file order (C19_file, C19_labels_order). The recognisers are hand-written for the regular expressions; regex literals and the scanner-error check are regenerated facts (C19_facts); recogniser = Go regexp is established by the differential, not by proof.",
+   technique="Lean 4 exact-language proof for hand-written recognisers + regenerated regex/scanner facts + differential incl. all single-character corruptions"),
 }
 
 checks = []
